@@ -301,9 +301,16 @@ HAND = [
     ['YEAR(', '"2019-11-20"', ')'],
     ['va', '&', 'vs'],
     ['vs', '=', '"text"'],
+    # arguments whose *values* are separator characters (the grammar actions once compared values with ',')
+    ['REC(', '"a"', SEP, '","', SEP, '"b"', ')'],
+    ['REC(', '","', SEP, '";"', ')'],
+    ['REC(', '1', SEP, '";"', SEP, '","', SEP, '2', ')'],
+    ['{', '","', SEP, '";"', '}'],
+    ['CONCATENATE(', '"x"', SEP, '","', SEP, '";"', ')'],
+    ['REC(', 'vc', SEP, 'vsc', SEP, 'vc', ')'],
 ]
 
-VARS = {'va': 7, 'vb': 4, 'vs': 'text'}
+VARS = {'va': 7, 'vb': 4, 'vs': 'text', 'vc': ',', 'vsc': ';'}
 for _i, _n in enumerate(F.VARNAMES):
     VARS.setdefault(_n, F.PRIMES[_i])
 VARS['va'] = 7
